@@ -304,6 +304,23 @@ func genArgFault(r *Rng, d *DeclSpec, p *Plan, twinCalls []Call) (f ArgFault, ok
 		}
 		if p.NeedCmd {
 			f.Expect = "command required"
+			// the command word is missing, but further words follow that are not
+			// looked at as commands: after a double dash, or an option nobody knows
+			// that IgnoreUnknown lets through
+			lastWord := ""
+			for _, t := range p.Toks {
+				if t.Role == "cmd" {
+					lastWord = t.Text
+				}
+			}
+			switch x := r.Intn(4); {
+			case x == 0 && d.Options&optPassDoubleDash != 0 && lastWord != "":
+				f.Text = "-- " + lastWord
+				f.Expect = "command required|unknown command"
+			case x == 1 && d.Options&optIgnoreUnknown != 0:
+				f.Text = "--bogus-zz"
+				f.Expect = "command required|unknown command"
+			}
 		}
 		return f, true
 	case "misspell-cmd":
@@ -362,6 +379,9 @@ func genArgFault(r *Rng, d *DeclSpec, p *Plan, twinCalls []Call) (f ArgFault, ok
 		f.Opt = oi.Path
 		f.EnvKey = envFullOf(d, oi)
 		f.EnvVal = r.Pick([]string{"x!y", "1.2.3", "--", "12x"})
+		if isMapKind(oi.O.Kind) {
+			f.EnvVal = "k:" + f.EnvVal // (without a colon the value part would be the empty text, a conversion boundary)
+		}
 		f.Expect = "marshal"
 		return f, true
 	case "callee":
@@ -476,6 +496,7 @@ func applyArgFault(p *Plan, f ArgFault) []string {
 			}
 			out = append(out, t.Text)
 		}
+		out = append(out, strings.Fields(f.Text)...)
 	case "truncate":
 		for i, t := range toks {
 			if i < f.Pos {
